@@ -78,10 +78,20 @@ def run(tier):
                 rep.violation({"proto": proto, "what": f["what"]},
                               "%s: replaying a TLC-enumerated delivery order on the real handler: %s" % (proto, f["what"]), f)
 
+    # ---- 2b. the two-party handler (Doerner): every interleaving incl. duplicates and late re-deliveries, liveness
+    for R in (2, 3):
+        consts = {"P": {"a", "b"}, "Honest": {"a", "b"}, "R": R, "First": "a", "Variants": {"h"}, "MaxInject": 0,
+                  "MaxDup": 2 if quick else 3, "StopAllowed": False}
+        r = vlib.tlc(wd, "TwoParty", vlib.cfg(consts, spec="Spec", invariants=["TypeOK", "HonestNeverAborts", "NoDeadlock", "NoBadAccepted"],
+                                             properties=["Completes", "ResultStable"]), timeout=1500)
+        vlib.tlc_must_pass(r, "TwoParty.tla R=%d" % R)
+        states += r["distinct"]; trans += r["generated"]
+        rep.notes.append("TwoParty.tla both honest, R=%d, duplicates / late re-deliveries: %d distinct states, invariants + liveness hold" % (R, r["distinct"]))
+
     # ---- 3. random global schedules of real protocols (duplicates included), validated against Handler.tla
     runs = 25 if quick else 150
     tv = [("frost-keygen", 3), ("frost-sign", 3), ("taproot-keygen", 3), ("taproot-sign", 3), ("xor", 4), ("toy:bm,bm", 3),
-          ("frost-keygen", 4), ("toy:b,b,bm,b", 3)]
+          ("frost-keygen", 4), ("toy:b,b,bm,b", 3), ("doerner-keygen", 2)]
     if not quick:
         tv += [("cmp-keygen", 3), ("frost-sign", 5), ("toy:bm,bm,bm,b", 4), ("xor", 5)]
     for proto, n in tv:
@@ -95,8 +105,11 @@ def run(tier):
         s = json.load(open(sf))
         for f in s["failures"] or []:
             rep.violation({"proto": proto, "what": f["what"]}, "%s under a random schedule: %s (%s)" % (proto, f["what"], f["detail"]), f)
-        r = hc.validate_trace(wd, tf, s["parties"], s["parties"], s["R"], s["shapeB"] or [], s["shapeM"] or [],
-                              extra_invariants=["TraceHonestNeverAborts"])
+        if proto.startswith("doerner"):
+            r = hc.validate_twoparty(wd, tf, s["parties"], s["parties"], s["R"], extra_invariants=["TraceHonestNeverAborts"])
+        else:
+            r = hc.validate_trace(wd, tf, s["parties"], s["parties"], s["R"], s["shapeB"] or [], s["shapeM"] or [],
+                                  extra_invariants=["TraceHonestNeverAborts"])
         states += r["distinct"]; trans += r["generated"]
         if r["ok"]:
             traces_ok += k
